@@ -68,6 +68,8 @@ if confirmed:
             rc, o = sh(["./check", prop], cwd="/verif", env=dict(os.environ, VERIF_TIER=tier))
         finally:
             sh(["git", "-C", "/repo", "checkout", "--", "."])
+            # the evidence file written by this run describes a CHANGED tree: put the committed one back
+            sh(["git", "-C", "/verif", "checkout", "--", f"evidence/{prop}.json"])
         res["check_exit"] = rc
         res["check_output"] = [l for l in o.splitlines() if l.startswith(("VIOLATION", "KNOWN", "ERROR", prop))][:6]
         res["detected"] = rc == 1 and any(l.startswith("VIOLATION property=" + prop) for l in o.splitlines())
